@@ -2,7 +2,7 @@
     Only statements, each closed by [exact].  Model under [cfg_fixed]; [reach] = every history. *)
 From BX Require Import Model.Router Proofs.RouterProofs.
 From BX Require Import Base.Prelude Base.Fsm Model.TxFsm Model.TxMgr Model.Interchain Model.IbtpExec Model.IbtpMon Model.IbtpJudge
-     Proofs.IbtpInv Proofs.IbtpTimeout Proofs.IbtpBlock Proofs.IbtpProps.
+     Proofs.IbtpInv Proofs.IbtpTimeout Proofs.IbtpBlock Proofs.IbtpProps Proofs.IbtpNotify.
 From BX Require Import Proofs.IbtpMonProofs.
 Local Open Scope N_scope.
 
@@ -67,10 +67,21 @@ Theorem C06_group_listed_is_begin : forall w st hh g,
 Proof. intros w st hh g R. destruct (reach_sinv _ _ R) as [_ T]. exact (m_gid _ _ _ _ _ T hh g). Qed.
 Print Assumptions C06_group_listed_is_begin.
 
-(** PARTIAL (C06_group): the group analogue of [C06_fires_at] (all children listed for the source chain
-    and moved to BEGIN_ROLLBACK exactly at the group's height) is covered by the invariant above, by
-    C05_shape for the rolled-back group, and by the predicate [c06_b] on every trace; it is not stated
-    as one theorem over all histories. *)
+(** ... and when it is read for the current height every child is listed for its source chain and the
+    whole group moves to BEGIN_ROLLBACK *)
+Theorem C06_group_fires : forall w st ops st' bm mid t2 g gi k s,
+  reach w st -> block_facts w st ops st' bm mid t2 ->
+  In (TGid g) (get_timeout_list t2 (s_h st + 1)) -> tm_glob (s_tm mid) g = Some gi -> In (k, s) (g_children gi) ->
+  In k (m_timeout bm (chain_of w (fst (fst k)))) /\
+  (s = ST_SUCCESS -> In k (m_timeout bm (chain_of w (snd (fst k))))) /\
+  gstate (s_tm st') g = Some ST_BEGIN_ROLLBACK.
+Proof. exact c05_notify_timeout. Qed.
+Print Assumptions C06_group_fires.
+
+(** PARTIAL (C06_group): together with [C06_group_listed_is_begin] this gives "listed only at the group's
+    height while BEGIN, and then everything fires"; the converse for groups (a BEGIN group IS in the list
+    of its height until it leaves BEGIN) is not stated as a theorem — it is covered by the predicate
+    [c06_b] (a group that reaches its height must not stay BEGIN). *)
 
 (** restart: everything the properties talk about lives in contract state; a restart keeps every
     record, group, counter and every id-bearing timeout list (it only forgets empty lists that existed
